@@ -41,6 +41,10 @@ class Budget(Abort):
     pass
 
 
+class NotMine(Abort):
+    """The path belongs to another shard of the same task."""
+
+
 class ProxyLeak(BaseException):
     """A proxy reached an operation the encoding does not model: checker error, never a verdict."""
 
@@ -638,7 +642,8 @@ class PathState:
         self.fresh_n = 0
         self._sqrt_cache = {}
         self._cleanups = []
-        self.trace = []              # human readable decision trace
+        self.results = []            # buffered ensure results, committed by the explorer if this shard owns the path
+        self.covers = []
 
     # ---- inputs
     def real(self, name, pos=False, nonneg=False):
@@ -758,6 +763,8 @@ class PathState:
                 choice = ft
         self.decisions.append(choice)
         self._add(t if choice else z3.Not(t))
+        if ex.shard and len(self.decisions) == ex.shard[2] and not ex.owns(self.decisions):
+            raise NotMine()
         return choice
 
     # ---- calling code under test
@@ -789,14 +796,12 @@ class PathState:
 
     # ---- obligations
     def ensure(self, name, cond, note=None):
-        ob = self.ex.report.ob(name)
-        ob.vcs += 1
         t0 = time.time()
+        model = None
         if not isinstance(cond, (SymBool, z3.ExprRef)):
             # concrete truth value on this path
             if cond:
-                ob.discharged += 1
-                ob.backend["concrete"] = ob.backend.get("concrete", 0) + 1
+                self.results.append((name, "unsat", "concrete", 0.0, None, None))
                 return True
             # false on a path: violation iff the path is feasible
             verdict, model, backend, secs = self._final_check([])
@@ -807,23 +812,16 @@ class PathState:
             r = self._check()
             model = self.solver.model() if r == z3.sat else None
             self.solver.pop()
-            verdict, backend, secs = str(r), "z3-inc", time.time() - t0
+            verdict, backend = str(r), "z3-inc"
             if r == z3.unknown:
                 verdict, model, backend, _ = solve_exact(self.pc + [neg], self.ex.vc_timeout_ms)
-        ob.solver_s += time.time() - t0
-        ob.backend[backend] = ob.backend.get(backend, 0) + 1
-        if ob.sample is None:
-            ob.sample = dict(path=len(self.ex.report.obs) and self.ex.report.paths, pc_size=len(self.pc),
-                             verdict=verdict, goal=str(cond.t if isinstance(cond, SymBool) else cond)[:300])
-        if verdict == "unsat":
-            ob.discharged += 1
-            return True
+        goal = str(cond.t if isinstance(cond, SymBool) else cond)
+        sample = dict(pc_size=len(self.pc), verdict=verdict, goal=goal[:300])
+        viol = None
         if verdict == "sat":
-            ob.violations.append(dict(model=self._model_dict(model), decisions=list(self.decisions),
-                                      note=note, goal=str(cond.t if isinstance(cond, SymBool) else cond)[:500]))
-            return False
-        ob.undecided.append(dict(reason="solver unknown/timeout", decisions=list(self.decisions)))
-        return None
+            viol = dict(model=self._model_dict(model), decisions=list(self.decisions), note=note, goal=goal[:500])
+        self.results.append((name, verdict, backend, time.time() - t0, viol, sample))
+        return True if verdict == "unsat" else (False if verdict == "sat" else None)
 
     def _final_check(self, extra):
         return solve_exact(self.pc + extra, self.ex.vc_timeout_ms)
@@ -849,16 +847,16 @@ class PathState:
 
     def cover(self, name):
         """Reachability marker: counted per contract; zero covers = vacuous contract (checker error)."""
-        self.ex.report.notes.setdefault("covers", {})
-        self.ex.report.notes["covers"][name] = self.ex.report.notes["covers"].get(name, 0) + 1
+        self.covers.append(name)
 
 
 _MISSING = object()
 
 
 class Explorer:
-    def __init__(self, program, name=None, budget_s=None, max_paths=None, vc_timeout_ms=VC_TIMEOUT_MS):
+    def __init__(self, program, name=None, budget_s=None, max_paths=None, vc_timeout_ms=VC_TIMEOUT_MS, shard=None):
         self.program = program
+        self.shard = shard          # (j, m, k): this explorer owns the paths whose first k decisions hash to j mod m
         self.report = Report(name or getattr(program, "__name__", "contract"))
         self.stack = []
         self.deadline = time.time() + budget_s if budget_s else None
@@ -867,6 +865,36 @@ class Explorer:
 
     def push_alternative(self, prefix):
         self.stack.append(prefix)
+
+    def owns(self, decisions):
+        if not self.shard:
+            return True
+        j, m, k = self.shard
+        if len(decisions) < k:
+            return j == 0
+        h = 0
+        for d in decisions[:k]:
+            h = (h * 2 + (1 if d else 0)) % 1000003
+        return (h * 2654435761 % 4294967296) % m == j
+
+    def commit(self, st):
+        rep = self.report
+        for name, verdict, backend, secs, viol, sample in st.results:
+            ob = rep.ob(name)
+            ob.vcs += 1
+            ob.solver_s += secs
+            ob.backend[backend] = ob.backend.get(backend, 0) + 1
+            if ob.sample is None and sample is not None:
+                ob.sample = sample
+            if verdict == "unsat":
+                ob.discharged += 1
+            elif verdict == "sat":
+                ob.violations.append(viol)
+            else:
+                ob.undecided.append(dict(reason="solver unknown/timeout", decisions=list(st.decisions)))
+        cv = rep.notes.setdefault("covers", {})
+        for c in st.covers:
+            cv[c] = cv.get(c, 0) + 1
 
     def run(self, prefixes=None):
         global CUR
@@ -886,8 +914,14 @@ class Explorer:
             rep.paths += 1
             try:
                 self.program(st)
-                if st.feasible():
-                    rep.paths_completed += 1
+                if self.owns(st.decisions):
+                    self.commit(st)
+                    if st.feasible():
+                        rep.paths_completed += 1
+                else:
+                    rep.paths -= 1
+            except NotMine:
+                rep.paths -= 1
             except Infeasible:
                 rep.infeasible += 1
             except Budget:
